@@ -99,18 +99,24 @@ func blockToSeqPair(alignedBlock alignedBlockInfo, ref []byte) alignPair {
 		queSeqArray[i] = alignedBlock.seqpairArray[i].query
 	}
 
+	// the number of alignment columns that precede each reference position because of
+	// an insertion (in any row) immediately before it: consecutive insertion operations in
+	// one row add up, and an insertion that several (overlapping) rows report is one insertion
+	insBefore := make([]int, len(ref)+1)
+	rowIns := make(map[[2]int]int)
+	for _, I := range insertions {
+		if I.start <= len(ref) {
+			key := [2]int{I.rowNumber, I.start}
+			rowIns[key] += I.length
+			if rowIns[key] > insBefore[I.start] {
+				insBefore[I.start] = rowIns[key]
+			}
+		}
+	}
+
 	// if there are insertions, we need to modify these new slices
 	if len(insertions) > 0 {
 		sort.Sort(byStart(insertions))
-
-		// the number of alignment columns that precede each reference position because of
-		// an insertion (in any row) immediately before it
-		insBefore := make([]int, len(ref)+1)
-		for _, I := range insertions {
-			if I.start <= len(ref) && I.length > insBefore[I.start] {
-				insBefore[I.start] = I.length
-			}
-		}
 
 		// re-gap every row so that all rows have the same columns: a row keeps its own
 		// insertion columns and is given gap columns where only other rows have insertions
@@ -179,8 +185,8 @@ func blockToSeqPair(alignedBlock alignedBlockInfo, ref []byte) alignPair {
 	// extend the alignment to the ref length + the total number of
 	// insertions relative to the reference...
 	totalInsertionLength := 0
-	for _, I := range insertions {
-		totalInsertionLength += I.length
+	for _, n := range insBefore {
+		totalInsertionLength += n
 	}
 
 	if len(R) < totalInsertionLength+len(ref) {
